@@ -150,10 +150,11 @@ func (k Keeper) AdjustPool(
 
 	// expiredHeight = [(srcEndHeight-beginPoint)*srcRewardPerBlock +appendReward]/RewardPerBlock + beginPoint
 	rewardsPerBlock := types.RewardRules(pool.Rules).RewardsPerBlock()
-	availableHeight := availableReward[0].Amount.Quo(rewardsPerBlock.AmountOf(availableReward[0].Denom)).Int64()
-	for _, c := range availableReward[1:] {
-		rpb := rewardsPerBlock.AmountOf(c.Denom)
-		inteval := c.Amount.Quo(rpb).Int64()
+	// every rule limits the end height, also one whose available reward is zero (sdk.Coins holds no zero coins)
+	availableHeight := availableReward.AmountOf(pool.Rules[0].Reward).Quo(rewardsPerBlock.AmountOf(pool.Rules[0].Reward)).Int64()
+	for _, r := range pool.Rules[1:] {
+		rpb := rewardsPerBlock.AmountOf(r.Reward)
+		inteval := availableReward.AmountOf(r.Reward).Quo(rpb).Int64()
 		if availableHeight > inteval {
 			availableHeight = inteval
 		}
